@@ -5,7 +5,9 @@ package main
 
 import (
 	"fmt"
+	"regexp"
 	"sort"
+	"strconv"
 	"strings"
 )
 
@@ -336,6 +338,17 @@ func checkC08(c *Ctx, e *Env) {
 	m, r := e1Handlers(c, e)
 	p := m.P
 	noteUndecided(c, m, r, "C08.E1")
+	// SIGNER: the account that must sign is GetSigners(); every message type decodes its signer field
+	// there with the error discarded, so the role checks below speak about the real signer only if the
+	// message validator has decoded that same field successfully on every accepting path
+	for _, h := range r.Handlers {
+		if h.EP.Kind != "msg" || h.EP.SignerField == "" || h.EP.Req == nil {
+			continue
+		}
+		v := ValidatedFacts(m, r.X, h.EP)
+		want := "+Ok(bech32(req." + h.EP.SignerField + "))"
+		c.Check(v.OK && v.Exit[want], "C08.SIGNER", h.Key+"#validator-decodes-signer", m.P.Pos(h.Fn.Pos()), "every accepting path of "+h.EP.Req.Obj().Name()+".ValidateBasic carries "+want+": a signer field that passes validation but does not decode would make GetSigners return an empty address")
+	}
 	roles := roleTable()
 	nEff := 0
 	for _, h := range r.Handlers {
@@ -489,6 +502,7 @@ func checkC03(c *Ctx, e *Env) {
 	m, r := e1Handlers(c, e)
 	p := m.P
 	noteUndecided(c, m, r, "C03.E1")
+	ruleAskDenom(c, m, r)
 	nDebit, nBank := 0, 0
 	for _, h := range r.Handlers {
 		signer := ""
@@ -796,4 +810,130 @@ func ruleUpdateTakesEffect(c *Ctx, m *Model, r *E1, rule string, only map[string
 		}
 		c.Check(bad == "" && n > 0, rule, sp.handler+"#takes-effect", p.Pos(h.Fn.Pos()), fmt.Sprintf("on all %d committed paths %s.%s is written with the value of req.%s %s", n, sp.table, sp.col, sp.reqField, bad))
 	}
+}
+
+// ---- C03.ASKDENOM: an order is filed under a market of the denomination its seller signed for ------
+//
+// A fill pays the seller in Market(order.MarketId).BankDenom. The seller signed order.AskPrice.Denom.
+// The two agree only if, wherever a handler stores a new MarketId into a SellOrder row, that id belongs
+// to a Market row which is known to carry exactly the requested denomination: found through a *unique*
+// index lookup keyed by the request's denom (an exact match), or inserted with it. A row taken from a
+// List/iterator is matched by key *prefix* only (the last string component of an ORM index key is not
+// terminated), so it needs an explicit equality test of its BankDenom before it may be used.
+
+var marketRowID = regexp.MustCompile(`^Market#(\d+)\.Id$`)
+
+func ruleAskDenom(c *Ctx, m *Model, r *E1) {
+	p := m.P
+	n := 0
+	for _, h := range r.Handlers {
+		if h.EP.Kind == "canary" {
+			continue
+		}
+		type agg struct {
+			pos string
+			bad string
+			n   int
+		}
+		sites := map[string]*agg{}
+		for _, o := range h.Outs {
+			st := o.St
+			for i := range st.events {
+				ev := &st.events[i]
+				if ev.Kind != "write" || ev.Table == nil || ev.Table.Name != "SellOrder" || !inScope(o, ev) || ev.OpKind == "delete" || ev.Row == nil {
+					continue
+				}
+				mv, has := ev.Row["MarketId"]
+				if !has {
+					continue
+				}
+				mid := st.canon(mv)
+				if ev.Old != nil && ev.Old.Row != nil {
+					if ov, ok := ev.Old.Row["MarketId"]; ok && st.canon(ov) == mid {
+						continue // unchanged
+					}
+				}
+				k := siteKey(ev)
+				a := sites[k]
+				if a == nil {
+					a = &agg{pos: p.Pos(ev.Pos.Pos())}
+					sites[k] = a
+				}
+				a.n++
+				why := ""
+				switch {
+				case strings.HasPrefix(mid, "newid:Market#"):
+					// the Market insert that produced the id
+					var ins *Event
+					for j := 0; j < i; j++ {
+						if w := &st.events[j]; w.Kind == "write" && w.Table != nil && w.Table.Name == "Market" && w.OpKind == "insert" {
+							ins = w
+						}
+					}
+					if ins == nil {
+						why = "the new market id does not come from a Market insert on this path"
+					} else if d := st.canon(ins.Row["BankDenom"]); !strings.HasSuffix(d, "AskPrice.Denom") {
+						why = "the market is created with BankDenom " + d + ", not the denomination of the request's ask price"
+					}
+				case marketRowID.MatchString(mid):
+					id, _ := strconv.Atoi(marketRowID.FindStringSubmatch(mid)[1])
+					var rd *Event
+					for j := 0; j < i; j++ {
+						if q := &st.events[j]; q.Kind == "read" && q.Table != nil && q.Table.Name == "Market" && q.RowObj == id {
+							rd = q
+						}
+					}
+					denomKeyed, denom := false, ""
+					if rd != nil {
+						for _, kv := range rd.Keys {
+							if s := st.canon(kv); strings.HasSuffix(s, "AskPrice.Denom") {
+								denomKeyed, denom = true, s
+							}
+						}
+					}
+					switch {
+					case rd == nil:
+						why = "the Market row the id is taken from is not a row read on this path"
+					case rd.OpKind == "get" && denomKeyed:
+						// exact match through a unique index
+					default:
+						// a listed / iterated row: an explicit equality of its BankDenom with the request's denom is needed
+						eq := false
+						for _, f := range st.facts {
+							if strings.HasPrefix(f, "+StrEq(") && strings.Contains(f, fmt.Sprintf("Market#%d.BankDenom", id)) && strings.Contains(f, "AskPrice.Denom") {
+								eq = true
+							}
+						}
+						if !eq {
+							if denomKeyed {
+								why = "the Market row comes from " + rd.Method + " keyed by " + denom + ": a list/iterator matches index keys by prefix (the trailing string component is not terminated), so a market whose denomination merely starts with the requested one can be returned, and nothing compares the row's BankDenom with the request"
+							} else {
+								why = "the Market row comes from " + rd.Method + ", which is not keyed by the request's ask denomination"
+							}
+						}
+					}
+				default:
+					why = "MarketId " + mid + " is neither the id of a Market row read on this path nor of one inserted on it"
+				}
+				if why != "" && a.bad == "" {
+					a.bad = why + " on path {" + outcomeLabel(h, o) + "}"
+				}
+			}
+		}
+		var ks []string
+		for k := range sites {
+			ks = append(ks, k)
+		}
+		sort.Strings(ks)
+		for _, k := range ks {
+			a := sites[k]
+			n++
+			if a.bad != "" {
+				c.Violate("C03.ASKDENOM", h.Key+"→"+k, a.pos, "a sell order can be filed under a market of another denomination than the one its seller asked for — a later fill takes the escrowed credits and pays in that other denomination: "+a.bad, nil)
+			} else {
+				c.Hold("C03.ASKDENOM", h.Key+"→"+k, a.pos, fmt.Sprintf("the MarketId stored here is that of a market found by a unique lookup of, or inserted with, the request's ask denomination (%d path visits)", a.n), nil)
+			}
+		}
+	}
+	c.Min("sites storing a new SellOrder.MarketId", 2, n)
 }
